@@ -11,12 +11,13 @@ meta_md=open(f'{out}/meta{k}.md').read()
 meta={
  "id":sid,
  "breaks_property":prop,
+ "round":int(__import__("os").environ.get("ROUND","0")),
  "source":"independent sub-agent given only the property text and a scratch worktree",
  "needs_to_manifest_and_description":meta_md,
  "confirmed_by_me":{
    "how":"tools/try_mutant.sh: copy demo into /repo, run it on the unchanged tree (passes), git apply patch, go build (plain and -tags verif), run the 30 pinned tests (pass), run the demo (fails), run the checks, git checkout",
    "pinned_tests_with_change":"pass","demo_without_change":"pass","demo_with_change":"fail"},
- "caught_by":[c for c in caught.split(',') if c and c!='-'],
+ "caught_by":[(c if ' ' in c else c+' quick') for c in caught.split(',') if c and c!='-'],
  "missed_by":[c for c in missed.split(',') if c and c!='-'],
  "note":note
 }
